@@ -4,8 +4,7 @@ C18, widening round: the mechanisms reached by a peer that completed the handsha
     value is ever used by both directions, and none twice within a direction before 2^191 frames
   * sealed frames (the PEER chooses the frame type): a frame opens only for the current receive index, which then advances:
     no replay, no reordering
-  * allocation: FALSE of the code — `Read` lets snappy allocate the length a compressed frame ANNOUNCES before any length test
-    (`C18_alloc_statement`, kernel-checked counterexample, `C18_alloc_partial`)
+  * allocation: `Read` tests the length a compressed frame ANNOUNCES before snappy allocates it (3c63eeb): `C18_alloc_holds`
   * TrySend: a full queue refuses and changes nothing; an accepted message goes to the end of the queue
   * a message that arrives on the connection authenticated as k reaches the reactors as coming from ID(k)
 -/
@@ -99,27 +98,36 @@ theorem sealed_no_replay (cd : Codec) (hb : BoxBound cd) (p x : Bytes) (k later 
   | none => rfl
   | some x' => have := hb p k later x x' hopen h; omega
 
-/-! ## allocation before the length test -/
+/-! ## allocation on behalf of a peer-supplied frame -/
 
-/-- FULL STATEMENT: on behalf of one frame `Read` never allocates more than a chunk can be (dataMaxSize). -/
+/-- FULL STATEMENT: whatever bytes a peer sends and whatever length they announce, one `Read` lets snappy allocate at most a
+chunk (`dataMaxSize` = 32 KiB; the frame buffer itself is bounded by `frameCapacity`, the sealed-frame buffer is fixed). -/
 def C18_alloc_statement : Prop :=
   ∀ (cd : Codec) (r : Reader), readAlloc genCfg cd r ≤ genCfg.dataMaxSize
 
-/-- FALSE of the current code (proposed finding `read-allocates-announced-length`): a 10-byte compressed frame whose snappy
-header announces 64 MiB makes `snappy.Decode(nil, rawData)` allocate 64 MiB; the chunk-length test comes afterwards -/
-theorem C18_alloc_counterexample : ¬ C18_alloc_statement := by
-  intro h
-  have := h { enc := id, dec := fun _ => none, announced := fun _ => 67108864 }
-    { recvBuffer := [], wire := [0xFF, 0, 0, 0, 5, 0x80, 0x80, 0x80, 0x20, 0xAA] }
-  revert this
-  decide
-
-/-- true part: a payload that announces no more than a chunk costs no more than a chunk -/
-theorem C18_alloc_partial (cd : Codec) (r : Reader) (h : ∀ p, cd.announced p ≤ genCfg.dataMaxSize) :
-    readAlloc genCfg cd r ≤ genCfg.dataMaxSize := by
+/-- holds of the current code (3c63eeb: the announced length is tested before `snappy.Decode`) -/
+theorem C18_alloc_holds : C18_alloc_statement := by
+  intro cd r
   unfold readAlloc
   dsimp only
-  repeat (first | exact Nat.zero_le _ | exact h _ | split)
+  repeat' (first | exact Nat.zero_le _ | split)
+  all_goals omega
+
+/-- the bound is about these constants -/
+theorem alloc_bound_constants : genCfg.dataMaxSize = 32768 ∧ genCfg.frameCapacity = 65535 := by decide
+
+/-- the old witness (10 bytes announcing 64 MiB): nothing is allocated for it … -/
+example : readAlloc genCfg { enc := id, dec := fun _ => none, announced := fun _ => 67108864 }
+    { recvBuffer := [], wire := [0xFF, 0, 0, 0, 5, 0x80, 0x80, 0x80, 0x20, 0xAA] } = 0 := by decide
+
+/-- … and it is refused as an undecodable frame -/
+example : (Model.Conn.read genCfg { enc := id, dec := fun _ => none, announced := fun _ => 67108864 }
+    { recvBuffer := [], wire := [0xFF, 0, 0, 0, 5, 0x80, 0x80, 0x80, 0x20, 0xAA] } 20).2 = .error .decode := by rfl
+
+/-- non-vacuity: a frame that announces 5 bytes does get its 5 bytes -/
+example :
+    readAlloc genCfg { enc := id, dec := some, announced := fun _ => 5 } { recvBuffer := [], wire := [0xFF, 0, 0, 0, 5, 1, 2, 3, 4, 5] } = 5 := by
+  decide
 
 /-! ## TrySend -/
 
